@@ -632,6 +632,111 @@ func (sm *Sim) Triples() string {
 	return strings.Join(s, ",")
 }
 
+// Views: the read-only API after a step (model: m_views, reference: r_views in Extract/D04.v).
+func (sm *Sim) Views(ips []netip.Addr, macs []net.HardwareAddr) string {
+	tr := func(h *packet.Host) string { return MacTok(h.MACEntry.MAC) + "/" + IPTok(h.Addr.IP) + "/" + b01(h.Online) }
+	sortedIPs := func(l []packet.Addr) string {
+		a := make([]netip.Addr, len(l))
+		for i, x := range l {
+			a[i] = x.IP
+		}
+		sort.Slice(a, func(i, j int) bool { return a[i].Compare(a[j]) < 0 })
+		s := make([]string, len(a))
+		for i, x := range a {
+			s[i] = IPTok(x)
+		}
+		return strings.Join(s, "+")
+	}
+	var f, a, b []string
+	e := ""
+	for _, k := range ips {
+		if h := sm.S.FindIP(k); h != nil {
+			f = append(f, tr(h))
+		} else {
+			f = append(f, "-")
+		}
+	}
+	for _, m := range macs {
+		a = append(a, sortedIPs(sm.S.IPAddrs(m)))
+		b = append(b, sortedIPs(sm.S.FindByMAC(m)))
+		ent := sm.S.FindMACEntry(m)
+		e += b01(ent != nil && len(ent.HostList) > 0)
+	}
+	return "G:" + sm.Triples() + "|F:" + strings.Join(f, ",") + "|A:" + strings.Join(a, ",") + "|B:" + strings.Join(b, ",") + "|E:" + e
+}
+
+// Candidates collects the distinct addresses and MACs mentioned in a configuration and an op list.
+func Candidates(cfg Cfg, ops []string) (ips []netip.Addr, macs []net.HardwareAddr) {
+	seenI := map[netip.Addr]bool{}
+	seenM := map[string]bool{}
+	addI := func(a netip.Addr) {
+		if a.IsValid() && !seenI[a] {
+			seenI[a] = true
+			ips = append(ips, a)
+		}
+	}
+	addM := func(m net.HardwareAddr) {
+		if !seenM[string(m)] {
+			seenM[string(m)] = true
+			macs = append(macs, m)
+		}
+	}
+	addI(cfg.OwnIP)
+	addI(cfg.RtIP)
+	addM(cfg.OwnMAC)
+	addM(cfg.RtMAC)
+	for _, op := range ops {
+		f := strings.Split(op, ",")
+		switch f[0] {
+		case "R":
+			if len(f[1]) == 12 {
+				addM(ParseMac(f[1]))
+			}
+			addI(ParseIP(f[3]))
+			addM(ParseMac(f[4]))
+		case "U", "O":
+			addM(ParseMac(f[1]))
+			addI(ParseIP(f[2]))
+		case "C", "L":
+			addM(ParseMac(f[1]))
+		case "M":
+			addI(ParseIP(f[2]))
+		}
+	}
+	sort.Slice(ips, func(i, j int) bool { return ips[i].Compare(ips[j]) < 0 })
+	return
+}
+
+func IPsTok(l []netip.Addr) string {
+	s := make([]string, len(l))
+	for i, a := range l {
+		s[i] = IPTok(a)
+	}
+	return strings.Join(s, "+")
+}
+
+func MacsTok(l []net.HardwareAddr) string {
+	s := make([]string, len(l))
+	for i, a := range l {
+		s[i] = MacTok(a)
+	}
+	return strings.Join(s, "+")
+}
+
+func ParseIPs(s string) (l []netip.Addr) {
+	for _, x := range strings.Split(s, "+") {
+		l = append(l, ParseIP(x))
+	}
+	return
+}
+
+func ParseMacs(s string) (l []net.HardwareAddr) {
+	for _, x := range strings.Split(s, "+") {
+		l = append(l, ParseMac(x))
+	}
+	return
+}
+
 // ---------------------------------------------------------------- universe and generators
 
 type Universe struct {
@@ -695,6 +800,32 @@ func (g *Gen) advance() int64 {
 	return g.now
 }
 
+// ip4For / ip6For: a client mostly keeps "its" address (repeat traffic), sometimes roams or collides.
+func (g *Gen) ip4For(src net.HardwareAddr) netip.Addr {
+	if g.Rng.Chance(55) {
+		for i := 0; i < 3; i++ {
+			if bytes.Equal(src, g.U.MACs[2+i]) {
+				return g.U.IP4s[2+i]
+			}
+		}
+		if bytes.Equal(src, g.U.MACs[1]) {
+			return g.U.IP4s[1]
+		}
+	}
+	return g.U.IP4s[g.Rng.Intn(len(g.U.IP4s))]
+}
+
+func (g *Gen) ip6For(src net.HardwareAddr) netip.Addr {
+	if g.Rng.Chance(55) {
+		for i := 0; i < 2; i++ {
+			if bytes.Equal(src, g.U.MACs[2+i]) {
+				return g.U.IP6s[i+2*g.Rng.Intn(2)]
+			}
+		}
+	}
+	return g.U.IP6s[g.Rng.Intn(len(g.U.IP6s))]
+}
+
 // RxOp draws one received frame.
 func (g *Gen) RxOp() string {
 	src := g.clientMAC()
@@ -702,15 +833,15 @@ func (g *Gen) RxOp() string {
 	now := g.advance()
 	switch {
 	case r < 45:
-		return RxTok(src, "4", g.U.IP4s[g.Rng.Intn(len(g.U.IP4s))], nil, g.Rng.Pick(0, 0, 1, 2, 3, 3, 4, 5, 6), now)
+		return RxTok(src, "4", g.ip4For(src), nil, g.Rng.Pick(0, 0, 1, 2, 3, 3, 4, 5, 6), now)
 	case r < 65:
-		return RxTok(src, "6", g.U.IP6s[g.Rng.Intn(len(g.U.IP6s))], nil, g.Rng.Pick(0, 1, 2, 3, 4), now)
+		return RxTok(src, "6", g.ip6For(src), nil, g.Rng.Pick(0, 1, 2, 3, 4), now)
 	case r < 90:
 		am := src
 		if g.Rng.Chance(30) {
 			am = g.U.MACs[g.Rng.Intn(len(g.U.MACs))]
 		}
-		return RxTok(src, "a", g.U.IP4s[g.Rng.Intn(len(g.U.IP4s))], am, g.Rng.Intn(2), now)
+		return RxTok(src, "a", g.ip4For(am), am, g.Rng.Intn(2), now)
 	case r < 95:
 		return RxTok(src, "o", netip.Addr{}, nil, g.Rng.Intn(3), now)
 	default:
@@ -737,7 +868,11 @@ func (g *Gen) History(n int) []string {
 			if g.Rng.Chance(10) {
 				ip = netip.Addr{}
 			}
-			ops = append(ops, fmt.Sprintf("U,%s,%s,%s,%d", MacTok(g.clientMAC()), IPTok(ip), g.U.Names[g.Rng.Intn(len(g.U.Names))], g.advance()))
+			m := g.clientMAC()
+			if g.Rng.Chance(50) {
+				ip = g.ip4For(m)
+			}
+			ops = append(ops, fmt.Sprintf("U,%s,%s,%s,%d", MacTok(m), IPTok(ip), g.U.Names[g.Rng.Intn(len(g.U.Names))], g.advance()))
 		case r < 66:
 			ops = append(ops, fmt.Sprintf("O,%s,%s,%s", MacTok(g.clientMAC()), IPTok(g.anyIP()), g.U.Names[g.Rng.Intn(len(g.U.Names))]))
 		case r < 70:
